@@ -62,3 +62,7 @@
   (f4 (select r o) (select r (+ o 1)) (select r (+ o 2)) (select r (+ o 3))))
 ;@specfn be64 : (Array Int Int) Int -> Int
 ;@specfn be32 : (Array Int Int) Int -> Int
+; a freshly allocated sync.Map is empty
+;@onalloc sync.Map ghostempty smhas
+(define-fun emptyKeys () (Array Real Bool) ((as const (Array Real Bool)) false))
+;@const emptyKeys (Array Real Bool)
